@@ -14,37 +14,84 @@ ORDERED_ATTR = '_floating_patterns'       # list of `$f #Pattern x` variables, a
 IN_ORDER_HELPERS = {'get_metavars_in_order'}
 
 
+MODULE = 'metamath.converter.converter'
+
+
+def find_tables(py: PyRepo, fn: ast.FunctionDef):
+    """letter -> small-int tables visible to the decoder: constant dicts (literal, comprehension over an alphabet, dict(zip(..)))
+    assigned to a name in _import_proof or at module level; identified by content shape, not by name"""
+    from ..core.constfold import dict_pairs
+    found = {}
+    tree = py.modules[MODULE].tree
+    cands = [n for n in tree.body if isinstance(n, (ast.Assign, ast.AnnAssign))] + [n for n in ast.walk(fn) if isinstance(n, (ast.Assign, ast.AnnAssign))]
+    for node in cands:
+        tgt = node.targets[0] if isinstance(node, ast.Assign) else node.target
+        if not isinstance(tgt, ast.Name) or node.value is None:
+            continue
+        pairs = dict_pairs(node.value)
+        if pairs and all(isinstance(k, str) and len(k) == 1 and isinstance(x, int) and not isinstance(x, bool) for k, x in pairs):
+            found[tgt.id] = (pairs, node)
+    return found
+
+
+def find_decoder(py: PyRepo, fn: ast.FunctionDef, table_names):
+    """the function that turns one word into a number: nested in _import_proof or at module level, it subscripts the digit tables"""
+    tree = py.modules[MODULE].tree
+    cands = [n for n in ast.walk(fn) if isinstance(n, ast.FunctionDef) and n is not fn] + [n for n in tree.body if isinstance(n, ast.FunctionDef)]
+    out = []
+    for g in cands:
+        used = {n.value.id for n in ast.walk(g) if isinstance(n, ast.Subscript) and isinstance(n.value, ast.Name) and n.value.id in table_names
+                and isinstance(n.ctx, ast.Load)}
+        if len(used) >= 2:
+            out.append(g)
+    return out
+
+
+def _factors(e):
+    if isinstance(e, ast.BinOp) and isinstance(e.op, ast.Mult):
+        return _factors(e.left) + _factors(e.right)
+    return [e]
+
+
 def digit_tables(ctx, py: PyRepo, fn: ast.FunctionDef):
     want = {'lsdigit': [(chr(ord('A') + i), i + 1) for i in range(20)],       # A..T -> 1..20 (Metamath book, appendix B)
             'msdigit': [(chr(ord('U') + i), i + 1) for i in range(5)]}        # U..Y -> 1..5
-    found = {}
-    for node in ast.walk(fn):
-        if isinstance(node, ast.Assign) and isinstance(node.targets[0], ast.Name) and isinstance(node.value, ast.Dict):
-            try:
-                found[node.targets[0].id] = ([(ast.literal_eval(k), ast.literal_eval(v)) for k, v in zip(node.value.keys, node.value.values)], node)
-            except (ValueError, TypeError):
-                pass
-    # identify the two tables by content shape, not by name: letter -> small int
-    tables = {n: v for n, v in found.items() if v[0] and all(isinstance(k, str) and len(k) == 1 and isinstance(x, int) for k, x in v[0])}
+    tables = find_tables(py, fn)
     ctx.require(len(tables) >= 2, f'_import_proof: expected two letter->digit tables, found {sorted(tables)}')
     ls = [(n, v) for n, v in tables.items() if len(v[0]) >= 10 or any(k == 'A' for k, _x in v[0])]
     ms = [(n, v) for n, v in tables.items() if (n, v) not in ls]
+    names = {}
     for label, cands, spec in (('least-significant', ls, want['lsdigit']), ('most-significant', ms, want['msdigit'])):
         ctx.require(len(cands) == 1, f'_import_proof: cannot identify the {label} digit table')
         name, (pairs, node) = cands[0]
+        names[label] = name
         keys = [k for k, _v in pairs]
         ok = sorted(pairs) == sorted(spec) and len(set(keys)) == len(keys)
         diff = sorted(set(spec) ^ set(pairs))
         ctx.ob('digit-table', label, ok,
                f'the {label} digit table `{name}` differs from the specification at {diff[:6]}'
-               + (' (duplicate keys)' if len(set(keys)) != len(keys) else ''), py.where('metamath.converter.converter', node),
+               + (' (duplicate keys)' if len(set(keys)) != len(keys) else ''), py.where(MODULE, node),
                facts={'entries': len(pairs)})
     # the decoder uses them with the specified weights: n = ls + sum ms_i * 5^i * 20
-    conv = [n for n in ast.walk(fn) if isinstance(n, ast.FunctionDef) and n.name == 'convert_to_number']
-    if conv:
-        src = ast.unparse(conv[0])
-        ok = ('pow(5, exp) * 20' in src or '20 * pow(5, exp)' in src or '5 ** exp * 20' in src or '20 * 5 ** exp' in src)
-        ctx.ob('digit-table', 'weights', ok, 'convert_to_number does not weight the high digits by 20 * 5^i', py.where('metamath.converter.converter', conv[0]))
+    conv = find_decoder(py, fn, set(names.values()))
+    ctx.require(len(conv) == 1, 'anchor vanished: the function that decodes one word with both digit tables (convert_to_number)')
+    ok = False
+    for n in ast.walk(conv[0]):
+        if isinstance(n, ast.BinOp) and isinstance(n.op, ast.Mult):
+            fs = _factors(n)
+            has_ms = [f for f in fs if isinstance(f, ast.Subscript) and isinstance(f.value, ast.Name) and f.value.id == names['most-significant']]
+            if not has_ms or len(fs) != 3:
+                continue
+            rest = [f for f in fs if f not in has_ms]
+            c20 = [f for f in rest if isinstance(f, ast.Constant) and f.value == 20]
+            p5 = [f for f in rest if (isinstance(f, ast.Call) and ast.unparse(f.func) == 'pow' and len(f.args) == 2 and not f.keywords
+                                      and isinstance(f.args[0], ast.Constant) and f.args[0].value == 5 and isinstance(f.args[1], ast.Name))
+                  or (isinstance(f, ast.BinOp) and isinstance(f.op, ast.Pow) and isinstance(f.left, ast.Constant) and f.left.value == 5
+                      and isinstance(f.right, ast.Name))]
+            if len(has_ms) == 1 and len(c20) == 1 and len(p5) == 1:
+                ok = True
+    ctx.ob('digit-table', 'weights', ok, 'the word decoder does not weight the high digits by 20 * 5^i', py.where(MODULE, conv[0]))
+    return names, conv[0]
 
 
 def numbering(ctx, py: PyRepo, fn: ast.FunctionDef, ci):
@@ -61,20 +108,33 @@ def numbering(ctx, py: PyRepo, fn: ast.FunctionDef, ci):
     ctx.require(len(loops) >= 1, '_import_proof: cannot find the loop that numbers the mandatory hypotheses')
     for loop, st in loops:
         where = py.where('metamath.converter.converter', loop)
-        src = order_from_set(fn, oa, env, ci, loop.iter)
+        it = loop.iter
+        enum_start = None
+        if isinstance(it, ast.Call) and isinstance(it.func, ast.Name) and it.func.id == 'enumerate' and it.args:
+            # for number, var in enumerate(source, start=1)
+            st_e = it.args[1] if len(it.args) > 1 else next((k.value for k in it.keywords if k.arg == 'start'), None)
+            enum_start = st_e.value if isinstance(st_e, ast.Constant) else (0 if st_e is None else None)
+            it = it.args[0]
+        src = order_from_set(fn, oa, env, ci, it)
         if src is not None:
             ctx.ob('hypothesis-order', 'numbering-loop', False,
                    f'the mandatory hypotheses are numbered in the iteration order of `{src[0]}`, a set of {src[1]}: with two or more '
                    f'variables the numbering depends on the hash seed instead of the database order', where)
         else:
-            ok, why = database_ordered(fn, loop.iter)
+            ok, why = database_ordered(fn, it)
             if ok is None:
-                raise AnalysisError(f'_import_proof: cannot decide whether `{ast.unparse(loop.iter)}` is in database order ({why})')
-            ctx.ob('hypothesis-order', 'numbering-loop', ok, why, where, facts={'source': ast.unparse(loop.iter)})
+                raise AnalysisError(f'_import_proof: cannot decide whether `{ast.unparse(it)}` is in database order ({why})')
+            ctx.ob('hypothesis-order', 'numbering-loop', ok, why, where, facts={'source': ast.unparse(it)})
         # the index is a counter that starts at 1 and is incremented once per hypothesis
         idx = st.targets[0].slice
         ok_idx = isinstance(idx, ast.Name)
-        if ok_idx:
+        if ok_idx and isinstance(loop.iter, ast.Call) and it is not loop.iter and isinstance(loop.target, ast.Tuple) and len(loop.target.elts) == 2 \
+                and isinstance(loop.target.elts[0], ast.Name) and loop.target.elts[0].id == idx.id:
+            # the index is the enumerate counter: it must start at 1 and not be touched in the loop
+            touched = any(isinstance(a, (ast.Assign, ast.AugAssign)) and any(isinstance(x, ast.Name) and x.id == idx.id and isinstance(x.ctx, ast.Store)
+                                                                               for x in ast.walk(a)) for a in ast.walk(loop) if a is not loop)
+            ok_idx = enum_start == 1 and not touched
+        elif ok_idx:
             inits = [a for a in ast.walk(fn) if isinstance(a, ast.Assign) and isinstance(a.targets[0], ast.Name) and a.targets[0].id == idx.id]
             incs = [a for a in ast.walk(loop) if isinstance(a, ast.AugAssign) and isinstance(a.target, ast.Name) and a.target.id == idx.id]
             ok_idx = len(inits) == 1 and isinstance(inits[0].value, ast.Constant) and inits[0].value.value == 1 and len(incs) == 1 \
@@ -102,13 +162,10 @@ def order_from_set(fn, oa, env, ci, e, depth=0):
     return None
 
 
-def digit_order(ctx, py: PyRepo, fn: ast.FunctionDef):
+def digit_order(ctx, py: PyRepo, fn: ast.FunctionDef, names, cf):
     """positional weights of the decoder: the LAST letter of a word is the least-significant (A..T) digit, and the preceding U..Y
     letters are base-5 digits whose weight grows from right to left (exponent 0 next to the last letter).  Decided from the
     direction in which the high digits are traversed and the direction in which the exponent counts."""
-    conv = [n for n in ast.walk(fn) if isinstance(n, ast.FunctionDef) and n.name == 'convert_to_number']
-    ctx.require(len(conv) == 1, 'anchor vanished: convert_to_number')
-    cf = conv[0]
     where = py.where('metamath.converter.converter', cf)
     word = cf.args.args[0].arg
 
@@ -187,7 +244,7 @@ def digit_order(ctx, py: PyRepo, fn: ast.FunctionDef):
         return None
 
     # least-significant digit: lsdigit[<last letter>]
-    ls_uses = [n for n in ast.walk(cf) if isinstance(n, ast.Subscript) and isinstance(n.value, ast.Name) and n.value.id == 'lsdigit']
+    ls_uses = [n for n in ast.walk(cf) if isinstance(n, ast.Subscript) and isinstance(n.value, ast.Name) and n.value.id == names['least-significant']]
     ok_ls = False
     if len(ls_uses) == 1:
         sl = ls_uses[0].slice
@@ -395,8 +452,8 @@ def run(ctx):
     ci = py.cls('MetamathConverter')
     fn = ci.methods.get('_import_proof')
     ctx.require(fn is not None, 'anchor vanished: MetamathConverter._import_proof')
-    digit_tables(ctx, py, fn)
-    digit_order(ctx, py, fn)
+    names, decoder = digit_tables(ctx, py, fn)
+    digit_order(ctx, py, fn, names, decoder)
     numbering(ctx, py, fn, ci)
     # the ordered source really is an insertion-ordered list appended while the database is read in order
     init = ci.methods.get('__init__')
